@@ -48,7 +48,10 @@ def run(ctx):
         traces.append(tp)
     res = _genlib.parallel_trace(ctx, SPEC, CFG, traces, workers=4)
     if not ctx.quick:
-        self_test(ctx, traces[-1])
+        # a dedicated seeded trace (all kinds of cases) is corrupted for the binding self-test
+        stp = ctx.path("filt_selftest.ndjson")
+        ctx.harness("vh-gen", ["filters", "--seeded", 1500, "--salt", 99, "--out", stp])
+        self_test(ctx, stp)
     finish(ctx, traces, res, nvec)
 
 
@@ -120,7 +123,7 @@ def finish(ctx, traces, res, nvec):
 
 
 def self_test(ctx, trace):
-    recs = _genlib.split_cases(trace, 4000)
+    recs = _genlib.split_cases(trace, 6000)
 
     def walk(rs):
         """yield (index, case, input-of-stage, filter) for every stage record"""
